@@ -430,6 +430,28 @@ theorem orderBy_alias (σ : List Expr) (ks : List SortKey) (l : List Row) :
     (sortRows (substKeys σ ks) l).map (projRow σ) = sortRows ks (l.map (projRow σ)) :=
   map_sortRows (substKeys σ ks) ks (projRow σ) (fun a c => (cmpKeys_substKeys σ ks a c).symm) l
 
+/-- the block read in the textbook order projection → ORDER BY → LIMIT, when the ORDER BY is written against
+the select aliases `ks` -/
+theorem evalBlock_orderBy_alias (b : Block) (t : List Row) (ks : List SortKey)
+    (h : b.order = some (substKeys b.proj ks)) :
+    evalBlock b t = takeRange b.range.1 b.range.2 (sortRows ks ((core b t).map (projRow b.proj))) := by
+  simp only [evalBlock, h, sortOpt, orderBy_alias]
+
+/-- the same for a whole query of the differential run: a pipeline over a source relation whose transforms
+form an admissible segment denotes (`Model.Rel.evalPipe`, hence `evalSrc`) the rows of ONE SELECT block over
+that source -/
+theorem evalPipe_assemble (db : Db) (lets : List Table) (p : Pipe) (w : Nat)
+    (hw : ∀ r ∈ (resolveSrc db lets p.src).rows, r.length = w)
+    (h : AdmSeg (Block.init w) (resolveSrc db lets p.src).rows p.trs) :
+    (evalPipe db lets p).rows = evalBlock (assemble w p.trs) (resolveSrc db lets p.src).rows :=
+  assemble_correct (resolveSrc db lets) w p.trs _ hw h
+
+theorem evalSrc_assemble (db : Db) (p : Pipe) (w : Nat)
+    (hw : ∀ r ∈ (resolveSrc db [] p.src).rows, r.length = w)
+    (h : AdmSeg (Block.init w) (resolveSrc db [] p.src).rows p.trs) :
+    (evalSrc db { lets := [], main := p }).rows = evalBlock (assemble w p.trs) (resolveSrc db [] p.src).rows :=
+  evalPipe_assemble db [] p w hw h
+
 /-! ### positional freshness: a derive APPENDS columns, a key that reads existing positions does not see them -/
 
 theorem eval_append (e : Expr) (r ext : Row) (h : ∀ i ∈ e.reads, i < r.length) :
